@@ -1,8 +1,11 @@
 import BdModel.Defs.Store
+import BdModel.Proofs.DefsNames
 import BdModel.Props.C06
 /-
   C18 — DAG definitions are created, saved, renamed and deleted safely.
   Quantification: every world (any definitions, any history), every name / text / validity verdict.
+  Names: a DAG is the FILE a name denotes (`Defs.resolve` = util.AddYamlExtension); the abstract names of the
+  store model are `keyOf` of the spellings (C18_names_*), `renameSp` is the client's rename called with spellings.
 -/
 namespace BdModel.P18
 open BdModel.Defs BdModel.Hist
@@ -163,6 +166,122 @@ theorem C18_delete (w : World) (n : Nat) :
       cases hl : lookup w n <;> simp_all
     exact this
 
+/-- **C18 (names: the spellings of one DAG).** For an extension-free name `n`: `n`, `n.yml`, `n.yaml` denote the same
+    file `n.yaml` — creating / renaming onto any of them is creating / renaming onto that DAG —, while `n.yml.yaml`
+    is another DAG; for ANY `n` the spellings `n.yml` and `n.yaml` denote the same file; a resolved file denotes itself. -/
+theorem C18_names_alias (n : List Char) :
+    ((∀ c ∈ n, c ≠ '.') → resolve n = n ++ yamlExt ∧ resolve (n ++ ymlExt) = resolve n ∧ resolve (n ++ yamlExt) = resolve n ∧
+        resolve (n ++ ymlExt ++ yamlExt) ≠ resolve n) ∧
+    resolve (n ++ ymlExt) = resolve (n ++ yamlExt) ∧ resolve (resolve n) = resolve n := by
+  refine ⟨fun h => ?_, by rw [resolve_yml, resolve_yaml], resolve_idem n⟩
+  rw [resolve_bare n h, resolve_yml, resolve_yaml, resolve_yaml]
+  refine ⟨rfl, rfl, rfl, ?_⟩
+  rw [List.append_assoc]
+  intro e
+  have := List.append_cancel_left e
+  revert this; decide
+
+/-- **C18 (names ↦ model names).** Two spellings of a case get the same abstract name iff they denote the same file. -/
+theorem C18_names_key (sps : List (List Char)) (i j : Nat) (si sj : List Char)
+    (hi : sps[i]? = some si) (hj : sps[j]? = some sj) :
+    keyOf sps i = keyOf sps j ↔ resolve si = resolve sj := keyOf_eq_iff sps i j si sj hi hj
+
+/-- which spellings the client's `Find` resolves differently from the store: exactly the `.yml` ones of the pool -/
+theorem C18_names_literal (n : List Char) :
+    findsOwnFile (n ++ ymlExt) = false ∧ findsOwnFile (n ++ yamlExt) = true ∧ ((∀ c ∈ n, c ≠ '.') → findsOwnFile n = true) := by
+  refine ⟨?_, ?_, fun h => ?_⟩
+  · have h1 := splitExt_append n ['y', 'm', 'l'] yml_nodot
+    have h2 := resolve_yml n
+    simp only [ymlExt] at h2
+    simp only [findsOwnFile, ymlExt, h1, h2]
+    have : n ++ ['.', 'y', 'm', 'l'] ≠ n ++ yamlExt := fun e => by
+      have := List.append_cancel_left e
+      revert this; decide
+    simp [this]
+  · have h2 := resolve_yaml n
+    simp [findsOwnFile, h2]
+  · simp [findsOwnFile, splitExt_nodot n h]
+
+/-- **C18 (rename with spelled names never overwrites).** Whatever the spellings of the two names: a rename onto
+    ANOTHER existing DAG is refused and changes nothing; a rename onto (another spelling of) the DAG itself changes
+    nothing; no third DAG's definition or history is ever touched; for spellings the client looks up like the store
+    (`srcLit = dstLit = false`) it is `Defs.rename`, so `C18_rename` applies; and with such a TARGET spelling a
+    refused rename changes nothing at all. -/
+theorem C18_rename_spelled (w : World) (a b : Nat) (sl dl : Bool) :
+    (a ≠ b → exists? w b = true → renameSp w a b sl dl = (w, .err)) ∧
+    (a = b → (renameSp w a b sl dl).1 = w) ∧
+    (∀ m, m ≠ a → m ≠ b → lookup (renameSp w a b sl dl).1 m = lookup w m ∧
+        filesOf (renameSp w a b sl dl).1.hist m = filesOf w.hist m) ∧
+    (a ≠ b → renameSp w a b false false = Defs.rename w a b) ∧
+    (dl = false → (renameSp w a b sl dl).2 = .err → (renameSp w a b sl dl).1 = w) := by
+  refine ⟨?_, ?_, ?_, ?_, ?_⟩
+  · intro hab hb
+    unfold renameSp
+    split
+    · rfl
+    · split
+      · rfl
+      · rfl
+  · intro hab
+    subst hab
+    unfold renameSp
+    split
+    · rfl
+    · split
+      · rfl
+      · simp
+  · intro m hma hmb
+    unfold renameSp
+    split
+    · exact ⟨rfl, rfl⟩
+    · split
+      · exact ⟨rfl, rfl⟩
+      · rename_i t _
+        split
+        · exact ⟨rfl, rfl⟩
+        · split
+          · exact ⟨rfl, rfl⟩
+          · split
+            · constructor
+              · show lookup (setDef (dropDef w a) b t) m = _
+                rw [lookup_setDef_ne _ _ _ _ hmb, lookup_dropDef_ne _ _ _ hma]
+              · rfl
+            · constructor
+              · show lookup (setDef (dropDef w a) b t) m = _
+                rw [lookup_setDef_ne _ _ _ _ hmb, lookup_dropDef_ne _ _ _ hma]
+              · exact filesOf_apply w.hist (.rename a b) m (by simp [touches, hma, hmb])
+  · intro hab
+    unfold renameSp Defs.rename
+    cases lookup w a <;> simp [hab]
+  · intro hdl herr
+    subst hdl
+    unfold renameSp at herr ⊢
+    by_cases hs : sl = true
+    · simp [hs]
+    · simp only [hs] at herr ⊢
+      cases hl : lookup w a with
+      | none => simp
+      | some t =>
+        simp only [hl] at herr ⊢
+        by_cases hab : a = b
+        · simp [hab]
+        · by_cases hb : exists? w b = true
+          · simp [hab, hb]
+          · simp [hab, hb] at herr
+
+/-- the full-strength reading for spelled names: a rename that reports failure has changed nothing -/
+def C18_rename_refusal_full : Prop :=
+  ∀ (w : World) (a b : Nat) (sl dl : Bool), (renameSp w a b sl dl).2 = .err → (renameSp w a b sl dl).1 = w
+
+/-- **refuted by the code as it is** (finding `Frename-yml-target`, open): DAG 0 exists, name 1 is free and is typed
+    with the `.yml` extension — the definition moves although the answer is an error (and the history stays behind:
+    `renameSp` leaves `hist` alone in that branch). The strongest true statement is the last clause of
+    `C18_rename_spelled` (every target spelling but `.yml`); with the pending fix `dstLit` is always `false`. -/
+theorem C18_rename_refusal_full_refuted : ¬ C18_rename_refusal_full := by
+  intro h
+  have := h { defs := [(0, 5)] } 0 1 false true (by decide)
+  revert this; decide
+
 end BdModel.P18
 
 #print axioms BdModel.P18.C18_create
@@ -170,3 +289,8 @@ end BdModel.P18
 #print axioms BdModel.P18.C18_save_atomic
 #print axioms BdModel.P18.C18_rename
 #print axioms BdModel.P18.C18_delete
+#print axioms BdModel.P18.C18_names_alias
+#print axioms BdModel.P18.C18_names_key
+#print axioms BdModel.P18.C18_names_literal
+#print axioms BdModel.P18.C18_rename_spelled
+#print axioms BdModel.P18.C18_rename_refusal_full_refuted
